@@ -294,7 +294,9 @@ func runQueryWire(c *Ctx, pr *PropertyRun, prop, pkg string) {
 	// ---- hrefs are decoded paths
 	urlParseRule(c, pr, prop, nil)
 	// ... written and read by an inverse pair (shared with C16.pairs)
-	c16Pairs(c, pr, prop, func(what string) bool { return what == "href" })
+	c16Pairs(c, pr, prop, func(what string) bool {
+		return what == "href" || (prop == "C08" && what == "iCalendar UTC date-time")
+	})
 	// per-element holders of the codecs are fresh per element
 	freshHolderRule(c, pr, prop)
 	// every conformant document gets as far as the typed decoder
